@@ -27,9 +27,15 @@ var errUndecodable = errors.New("sim: undecodable message")
 // Unmarshal (dispatcher failure scenarios).
 type rawEnc struct{}
 
+var errUnencodable = errors.New("sim: unencodable message")
+
 func (rawEnc) Marshal(m drpc.Message) ([]byte, error) {
 	verifsim.Yield(verifsim.ClassApp, "enc.Marshal")
-	return m.(*Msg).B, nil
+	b := m.(*Msg).B
+	if len(b) > 0 && b[0] == 0xEF {
+		return nil, errUnencodable
+	}
+	return b, nil
 }
 
 func (rawEnc) Unmarshal(b []byte, m drpc.Message) error {
